@@ -17,6 +17,8 @@ pub const GET_COMPUTED: u32 = 3;
 pub const GET_POP: u32 = 4;
 /// inside a critical section of the guard stack's mutex, right after the lock was taken
 pub const LOCK_HELD: u32 = 5;
+/// before a `verif::Mutex` is locked (so that other threads can run between two critical sections of one thread)
+pub const LOCK_WANTED: u32 = 6;
 
 /// lock events (second handler): the calling thread found the mutex taken / a mutex was released
 pub const EV_WOULD_BLOCK: u32 = 1;
@@ -38,7 +40,7 @@ fn lock_event(ev: u32, lock: usize) -> bool {
 }
 
 /// `std::sync::Mutex` with the same interface whose blocking is visible to a controlled scheduler: a thread can be
-/// preempted inside a critical section (`LOCK_HELD`), and a thread that finds the mutex taken is parked by the
+/// preempted before and inside a critical section (`LOCK_WANTED`, `LOCK_HELD`), and a thread that finds the mutex taken is parked by the
 /// harness instead of by the operating system. Without handlers it behaves exactly like the std mutex.
 pub struct Mutex<T>(std::sync::Mutex<T>);
 pub struct MutexGuard<'a, T> {
@@ -55,6 +57,7 @@ impl<T> Mutex<T> {
     pub fn lock(&self) -> std::sync::LockResult<MutexGuard<'_, T>> {
         use std::sync::{PoisonError, TryLockError};
         let lock = self.id();
+        point(LOCK_WANTED);
         loop {
             match self.0.try_lock() {
                 Ok(g) => {
@@ -77,6 +80,7 @@ impl<T> Mutex<T> {
     pub fn try_lock(&self) -> std::sync::TryLockResult<MutexGuard<'_, T>> {
         use std::sync::{PoisonError, TryLockError};
         let lock = self.id();
+        point(LOCK_WANTED);
         match self.0.try_lock() {
             Ok(g) => {
                 let guard = MutexGuard { guard: Some(g), lock };
